@@ -119,7 +119,8 @@ def existence(ctx, fam):
             if not diags:
                 ctx.violate(f"unexpected-entry-point:{what}", f"{p['name']} {cfg}: entry point `{what}` exists although it is overridden / has no handler",
                             {"prog": p["name"], "config": cfg, "source": mods[m]})
-            elif "cannot find" not in txt:
+            elif "cannot find" not in txt and "is private" not in txt:
+                # ("is private": the name resolves to the user's own function of that name, glob-imported into the module -- not an entry point)
                 ctx.violate("probe-other-error", f"{p['name']}: probe for `{what}` failed differently: {diags[0]['message'][:120]}",
                             {"prog": p["name"], "config": cfg, "diagnostics": diags[:3]})
             else:
